@@ -2390,8 +2390,9 @@ class TLSConnection(TLSRecordLayer):
                     yield result
                 else:
                     break
-            if result == "finished":
-                self._handshakeDone(resumed=False)
+            if result in ("finished", "resumed_and_finished"):
+                self._handshakeDone(
+                    resumed=(result == "resumed_and_finished"))
             return
 
         #If not a resumption...
@@ -2903,6 +2904,7 @@ class TLSConnection(TLSRecordLayer):
 
         psk = None
         selected_psk = None
+        resuming = False
         resumed_client_cert_chain = None
         psks = clientHello.getExtension(ExtensionType.pre_shared_key)
         psk_types = clientHello.getExtension(
@@ -2935,6 +2937,7 @@ class TLSConnection(TLSRecordLayer):
                 psk = match[0][1]
                 selected_psk = i
                 if ticket:
+                    resuming = True
                     resumed_client_cert_chain = ticket.client_cert_chain
                 try:
                     HandshakeHelpers.verify_binder(
@@ -3411,7 +3414,7 @@ class TLSConnection(TLSRecordLayer):
         for result in self._serverSendTickets(settings):
             yield result
 
-        yield "finished"
+        yield "finished" if not resuming else "resumed_and_finished"
 
     def _ticket_to_session(self, settings, ticket_ext):
         if not ticket_ext.ticket:
